@@ -537,6 +537,8 @@ func (g *gen) genSpec(id int) {
 		gas = uint64(r.Intn(300))
 	case 4:
 		gas = 1280000 + uint64(r.Intn(3))*256
+	case 5, 6: // does not fit an int64 (a creation header is not validated): the gas-bound test must not be fooled
+		gas = ^uint64(0) - uint64(r.Intn(1000))
 	}
 	t0 := uint64(1600000000 + r.Intn(100000000))
 	gh := bsctypes.Header{
@@ -632,7 +634,9 @@ func (g *gen) genStep(bt *uint64, idx int) Step {
 	// base header
 	pg := head.GasLimit
 	gl := pg
-	if b := pg / 256; b > 1 {
+	if pg >= 1<<63 && r.Chance(3, 4) {
+		gl = 5000 + uint64(r.Intn(1000000)) // far from the parent's limit
+	} else if b := pg / 256; b > 1 {
 		d := uint64(r.Intn(int(minU(b-1, 1<<30)) + 1))
 		if r.Chance(1, 12) {
 			d = b - 1
@@ -1045,7 +1049,54 @@ func scriptCase(a *app.Teleport, base sdk.Context, id int, mode string, nvals in
 	return res
 }
 
+// gasCorpus: created with gas limit 2^64-1; the first child carries limit 5000
+func gasCorpus(a *app.Teleport, base sdk.Context, id int, mode string) Result {
+	r := hlib.NewRand(uint64(7800 + id))
+	g := &gen{r: r, tags: map[string]int{}}
+	g.mkKeys(5)
+	var raw [][]byte
+	for _, x := range g.addrs {
+		raw = append(raw, append([]byte{}, x[:]...))
+	}
+	sorted := sortedAddrs(raw)
+	sp := &Spec{ID: id, Mode: mode, ChainID: 56, Epoch: 200, Interval: 3, Trust: 999999999, Contract: "00"}
+	for _, x := range sorted {
+		sp.Vals = append(sp.Vals, hlib.Hex(x[:]))
+	}
+	gh := bsctypes.Header{
+		ParentHash: make([]byte, 32), UncleHash: emptyUncle[:], Coinbase: sorted[0][:], Root: r.Bytes(32), TxHash: make([]byte, 32),
+		ReceiptHash: make([]byte, 32), Bloom: make([]byte, 256), Difficulty: diffBytes(2), Height: clienttypes.NewHeight(0, 1000),
+		GasLimit: ^uint64(0), Time: 1000, Extra: mkExtra(r, sorted), MixDigest: make([]byte, 32), Nonce: make([]byte, 8),
+	}
+	seal(&gh, g.byAddr[sorted[0]], sp.ChainID)
+	sp.Genesis = fromProto(gh)
+	sp.ConsTime, sp.ConsRev, sp.ConsNum, sp.ConsRoot = gh.Time, 0, 1000, hlib.Hex(gh.Root)
+	rn := newRunner(a, base, sp)
+	res := Result{Obs: []Obs{}}
+	res.Create = rn.create()
+	res.Oracle = append(res.Oracle, rn.oracle(rn.headers[0]))
+	ph := gh.Hash()
+	signer := sorted[1]
+	d := uint64(1)
+	if sorted[1001%5] == signer {
+		d = 2
+	}
+	h := bsctypes.Header{
+		ParentHash: ph[:], UncleHash: emptyUncle[:], Coinbase: signer[:], Root: r.Bytes(32), TxHash: make([]byte, 32),
+		ReceiptHash: make([]byte, 32), Bloom: make([]byte, 256), Difficulty: diffBytes(d), Height: clienttypes.NewHeight(0, 1001),
+		GasLimit: 5000, Time: 1003, Extra: mkExtra(r, nil), MixDigest: make([]byte, 32), Nonce: make([]byte, 8),
+	}
+	seal(&h, g.byAddr[signer], sp.ChainID)
+	st := Step{BT: 1010, H: fromProto(h), Tag: "corpus-gas-cast"}
+	sp.Steps = append(sp.Steps, st)
+	res.Obs = append(res.Obs, rn.step(st))
+	res.Oracle = append(res.Oracle, rn.oracle(rn.headers[1]))
+	res.Spec = *sp
+	return res
+}
+
 func corpus(a *app.Teleport, base sdk.Context, emit func(Result)) {
+	emit(gasCorpus(a, base, 900100, "raw"))
 	id := 900000
 	for _, mode := range []string{"raw", "keeper"} {
 		// number < limit: validator 1 seals block 1 and tries block 2 (and 3); 12 validators: blocks 1, 4, 5
